@@ -364,7 +364,10 @@ impl ExprCompiled {
             ExprCompiled::List(xs) => xs.is_empty(),
             ExprCompiled::Tuple(xs) => xs.is_empty(),
             ExprCompiled::Dict(xs) => xs.is_empty(),
-            ExprCompiled::Value(v) if v.is_builtin() => v.to_value().length().is_ok_and(|l| l == 0),
+            // A string has a length but is not iterable: iterating it must still fail at run time.
+            ExprCompiled::Value(v) if v.is_builtin() && !v.is_str() => {
+                v.to_value().length().is_ok_and(|l| l == 0)
+            }
             _ => false,
         }
     }
